@@ -310,7 +310,6 @@ def _match_known(ob, prop, known):
 
 def finish(report, prog, level, t0, seed, meta):
     """Write evidence, print verdict lines, return exit code."""
-    report.check_floors()
     known = load_known()
     prop = report.prop
     viol, kn = [], []
@@ -322,6 +321,10 @@ def finish(report, prog, level, t0, seed, meta):
                 kn.append((ob, k))
             else:
                 viol.append(ob)
+    if not viol:
+        # floors guard against a vacuous pass; a run that already reports a
+        # violation is not a pass
+        report.check_floors()
     n_ob = len(report.obs)
     n_ok = sum(1 for o in report.obs if o.status == 'ok')
     rules = {}
